@@ -56,6 +56,7 @@ def gen_models(rng, tier):
 
 
 def run(res, replay=None):
+    import translate_step; (res.proof is not None) and translate_step.run(res.proof)
     rng = random.Random(res.seed)
     tier = res.tier
     res.rule = ('rates stream: every 2<=k<=b<=12 and every (s1,s2)<=12 for Kingman, Beta (dyadic alpha) and Dirac '
